@@ -18,12 +18,15 @@ PROP = 'C13'
 LEVEL = 'exploration'
 SHARDS = {'quick': 4, 'thorough': 16}
 BUDGET_S = {'quick': 150, 'thorough': 400}
-RULE = ('the family of 1120 signatures {0-3 positional-or-keyword params x default suffix} x {*args} x {0-2 '
+RULE = ('the family of signatures {0-3 positional-or-keyword params x default suffix} x {*args} x {0-2 '
         'keyword-only params x defaults} x {**kwargs} x {annotations} x {sync, async} - all of them in both tiers; '
         'per signature every call shape (thorough; a seeded sample of 60 in quick): 0..P+2 '
         'positional arguments x every subset of keyword names x one unknown keyword; injected for each '
-        'parameter, expected for a new name with and without default; distinct = distinct (signature, call '
-        'shape) pairs evaluated')
+        'parameter (list and plain-string form), for every pair of parameters, and together with expected; expected '
+        'for a new name with and without default (list, pairs, mapping) and for two new names; plus families with '
+        'equal-but-distinct defaults, falsy defaults (None, 0, "", False, ()), and arbitrary objects as defaults and '
+        'annotations (NaN, unhashable, no usable repr, forward-reference strings; identity of mutable defaults); '
+        'distinct = distinct (signature, call shape) pairs evaluated')
 ASSUMPTIONS = [
     'positional-only parameters are outside the statement and not generated',
     'the wrapper passed to wraps() is a pass-through (*args, **kwargs) function',
@@ -64,10 +67,59 @@ def all_signatures():
                                'varkw': varkw, 'ann': False, 'async': False, 'eqdefaults': True}
 
 
+    # falsy defaults (None, 0, '', False, ()) - "is there a default?" decided by truth value goes wrong here - and
+    # arbitrary objects as defaults / annotations (no usable repr, NaN, unhashable, strings that are not
+    # identifiers), with other names for the * and ** parameters
+    for style in ('falsy', 'objects'):
+        for npos in (1, 2, 3):
+            for ndef in range(1, npos + 1):
+                for varargs in (False, True):
+                    for kwodef in ((), (True,), (False, True), (True, True)):
+                        for varkw in (False, True):
+                            yield {'npos': npos, 'ndef': ndef, 'varargs': varargs, 'kwodef': list(kwodef),
+                                   'varkw': varkw, 'ann': style == 'objects', 'async': False, 'style': style}
+
+
 EQ_DEFAULTS = {'a': '1.0', 'b': '1', 'c': 'True', 'k1': '1', 'k2': '1.0'}
+FALSY_DEFAULTS = {'a': 'None', 'b': '0', 'c': "''", 'k1': 'False', 'k2': '()'}
+OBJ_DEFAULTS = {'a': 'W', 'b': 'NAN', 'c': 'LAM', 'k1': 'LST', 'k2': 'DCT'}
+OBJ_ANN = {'a': 'W', 'b': "'Forward'", 'c': 'typing.List[int]', 'k1': 'typing.Optional[int]', 'k2': "'x y'",
+           'args': 'W', 'kw': "'Kw'"}
+
+
+class _Weird(object):
+    def __repr__(self):
+        return '<weird object, not an expression>'
+
+    __hash__ = None
+
+
+import typing  # noqa: E402
+OBJ_NS = {'W': _Weird(), 'NAN': float('nan'), 'LAM': (lambda: 1), 'LST': [], 'DCT': {}, 'typing': typing}
 
 
 def source(sig, name='target'):
+    if sig.get('style'):
+        objs = sig['style'] == 'objects'
+        dflt = OBJ_DEFAULTS if objs else FALSY_DEFAULTS
+        star, dstar = 'rest', 'options'
+
+        def a(n, key=None):
+            return '%s: %s' % (n, OBJ_ANN[key or n]) if objs else n
+        parts = []
+        npos, ndef = sig['npos'], sig['ndef']
+        for i in range(npos):
+            parts.append(a(POS[i]) + (' = ' + dflt[POS[i]] if i >= npos - ndef else ''))
+        if sig['varargs']:
+            parts.append('*' + a(star, 'args'))
+        elif sig['kwodef']:
+            parts.append('*')
+        for i, d in enumerate(sig['kwodef']):
+            parts.append(a(KWO[i]) + (' = ' + dflt[KWO[i]] if d else ''))
+        if sig['varkw']:
+            parts.append('**' + a(dstar, 'kw'))
+        return ('def %s(%s)%s:\n    "docstring of target"\n    return dict(locals())\n'
+                % (name, ', '.join(parts), " -> 'Ret'" if objs else ''))
     if sig.get('eqdefaults'):
         parts = []
         npos, ndef = sig['npos'], sig['ndef']
@@ -110,7 +162,7 @@ def source(sig, name='target'):
 
 
 def make(sig):
-    ns = {}
+    ns = dict(OBJ_NS)
     exec(source(sig), ns)
     f = ns['target']
     f.__module__ = 'verif_generated_module'
@@ -154,9 +206,11 @@ def sigdiff(sa, sb):
     for x, y in zip(pa, pb):
         if x.kind != y.kind:
             return 'kind'
-        if x.default != y.default or type(x.default) is not type(y.default):
+        if x.default is not y.default and (x.default != y.default or type(x.default) is not type(y.default)):
             return 'defaults'
-        if x.annotation != y.annotation:
+        if x.default is not y.default and type(x.default) in (list, dict, _Weird):
+            return 'defaults:not-the-same-object'
+        if x.annotation is not y.annotation and x.annotation != y.annotation:
             return 'annotations'
     if sa.return_annotation != sb.return_annotation:
         return 'return-annotation'
@@ -164,7 +218,7 @@ def sigdiff(sa, sb):
 
 
 def shape_tag(sig):
-    return '%dpos%ddef%s%s%s%s' % (sig['npos'], sig['ndef'], '+varargs' if sig['varargs'] else '',
+    return '%s%dpos%ddef%s%s%s%s' % (sig.get('style', '') and sig['style'] + ':', sig['npos'], sig['ndef'], '+varargs' if sig['varargs'] else '',
                                   '+kwonly' + ''.join('D' if d else 'R' for d in sig['kwodef']) if sig['kwodef'] else '',
                                   '+varkw' if sig['varkw'] else '', '+async' if sig['async'] else '')
 
@@ -236,6 +290,44 @@ def check(c, st):
                     '%s with injected=%r -> %s' % (source(sig).splitlines()[0], p.name,
                                                    inspect.signature(wi, follow_wrapped=False)))
         st.count('injected_checks')
+    # injected given as a plain string, several parameters injected at once, injected together with expected
+    named = [q for q in params if q.kind in (q.POSITIONAL_OR_KEYWORD, q.KEYWORD_ONLY)]
+
+    def pv(ps):
+        return [(q.name, q.kind, q.default, type(q.default), q.annotation) for q in ps]
+    combos = [('str', named[0].name, [named[0].name], None)] if named else []
+    for x, y in itertools.combinations(named, 2):
+        combos.append(('two', [x.name, y.name], [x.name, y.name], None))
+        combos.append(('two', [y.name, x.name], [x.name, y.name], None))
+    for x in named:
+        combos.append(('with-expected', [x.name], [x.name], [('zz', 'dz')]))
+    for tag, inj, gone, exp in combos:
+        st.monitor_evals += 1
+        try:
+            wi = fu.wraps(f, injected=inj, expected=exp)(passthrough)
+            got = list(inspect.signature(wi, follow_wrapped=False).parameters.values())
+        except Exception as e:
+            return ('injected-raised:%s:%s' % (tag, type(e).__name__), 'wraps(%s, injected=%r, expected=%r) raised %r'
+                    % (source(sig).splitlines()[0], inj, exp, e))
+        new = [q for q in got if q.name == 'zz']
+        if pv([q for q in got if q.name != 'zz']) != pv([q for q in params if q.name not in gone]) or \
+                len(new) != (1 if exp else 0) or (exp and new[0].default != 'dz'):
+            return ('injected:' + tag, '%s with injected=%r expected=%r -> %s' % (
+                source(sig).splitlines()[0], inj, exp, inspect.signature(wi, follow_wrapped=False)))
+        st.count('injected_combo_checks')
+    # several expected parameters at once (all with defaults, so that a legal signature always exists)
+    st.monitor_evals += 1
+    exp2 = [('zz', 'dz'), ('yy', None)]
+    try:
+        we = fu.wraps(f, expected=exp2)(passthrough)
+        got = list(inspect.signature(we, follow_wrapped=False).parameters.values())
+    except Exception as e:
+        return ('expected-raised:two:%s' % type(e).__name__, 'wraps(%s, expected=%r) raised %r'
+                % (source(sig).splitlines()[0], exp2, e))
+    newd = dict((q.name, q.default) for q in got if q.name in ('zz', 'yy'))
+    if pv([q for q in got if q.name not in ('zz', 'yy')]) != pv(params) or newd != {'zz': 'dz', 'yy': None}:
+        return ('expected:two', '%s with expected=%r -> %s' % (source(sig).splitlines()[0], exp2,
+                                                               inspect.signature(we, follow_wrapped=False)))
     # expected: a new parameter, with and without default
     for exp, tag in ((['zz'], 'required'), ([('zz', 'dz')], 'with-default'), ({'zz': 'dz'}, 'mapping')):
         st.monitor_evals += 1
